@@ -129,6 +129,7 @@ class Ctx:
         self.sample = None               # human-readable description of the case
         self.nontrivial = False
         self.trace = []                  # human-readable trace (for replay files)
+        self.sched_trace = []            # context switches / completion picks (not in the digest)
 
     # -- logging (never draws, never reads a clock) -----------------------
     def log(self, *fields):
@@ -143,6 +144,10 @@ class Ctx:
         self.log("note", s)
         if len(self.trace) < 400:
             self.trace.append(s)
+
+    def switch_note(self, text):
+        if len(self.sched_trace) < 5000:
+            self.sched_trace.append(text)
 
     def sched(self, label, value):
         self.nsched += 1
